@@ -299,6 +299,50 @@ func (c *Check) writeUpdateContract(rule string) {
 				})
 			}
 			okG = okG && recv
+			// ... and keeps receiving until told to close: every return of
+			// the goroutine lies behind the close case of that select
+			if t != nil && recv {
+				var sel *ssa.Select
+				allInstrs(t, func(in ssa.Instruction) {
+					if s, ok := in.(*ssa.Select); ok {
+						for _, ss := range s.States {
+							if ss.Send == nil && chanFieldName(ss.Chan) == "resetKATimerCh" {
+								sel = s
+							}
+						}
+					}
+				})
+				live := sel != nil && sel.Blocking
+				var closeBlocks []*ssa.BasicBlock
+				if live {
+					for k, ss := range sel.States {
+						if ss.Send == nil && chanFieldName(ss.Chan) != "resetKATimerCh" {
+							if cb := selectCaseBlock(sel, k); cb != nil {
+								closeBlocks = append(closeBlocks, cb)
+							}
+						}
+					}
+				}
+				nret := 0
+				allInstrs(t, func(in ssa.Instruction) {
+					r, ok := in.(*ssa.Return)
+					if !ok || (t.Recover != nil && r.Block() == t.Recover) {
+						return
+					}
+					nret++
+					dom := false
+					for _, cb := range closeBlocks {
+						if cb.Dominates(r.Block()) {
+							dom = true
+						}
+					}
+					if !dom {
+						live = false
+					}
+				})
+				c.require(live, rule, p.Name(t), "keepalive manager keeps receiving", p.Pos(t.Pos()),
+					fmt.Sprintf("the goroutine WriteUpdate hands off to returns (%d return(s)) only from a non-reset case of the blocking select that receives resetKATimerCh; an earlier exit leaves WriteUpdate blocked until the session ends (deadlock when called on the FSM goroutine)", nret))
+			}
 		}
 		c.require(okG, rule, "fsm.established", "keepalive manager started first", p.Pos(est.Pos()), "the goroutine receiving resetKATimerCh is spawned on every path, before the session loop that calls OnEstablished")
 	}
